@@ -259,3 +259,16 @@ Theorem norm3d_code_tie :
   /\ Gen_C13.pn_normalize_pose_body = lit_pn_normalize_pose_body /\ Gen_C13.pn_call_body = lit_pn_call_body.
 Proof. exact C13_GenTie.norm3d_code_tie. Qed.
 Print Assumptions norm3d_code_tie.
+
+(* ---------- class structure of the current source: overrides and attribute hooks (proofs/ClassesTie.v) ---------- *)
+Require Import ClassesTie.
+Theorem C13_tie_class_numpy_body : over_numpy_body = Some exp_over_numpy_body.
+Proof. exact over_numpy_body_tie. Qed.
+Print Assumptions C13_tie_class_numpy_body.
+Theorem C13_tie_class_tf_body : over_tf_body = Some exp_over_tf_body.
+Proof. exact over_tf_body_tie. Qed.
+Print Assumptions C13_tie_class_tf_body.
+Theorem C13_tie_class_attr_hooks : Gen_Classes.attr_hooks = exp_attr_hooks.
+Proof. exact attr_hooks_tie. Qed.
+Print Assumptions C13_tie_class_attr_hooks.
+
